@@ -12,6 +12,7 @@ struct Acc {
     sink: VSink,
     evals: u64,
     exact: u64,
+    semi_exact: u64,
     windowed: u64,
     bounded_only: u64,
     probe_evals: u64,
@@ -23,6 +24,7 @@ fn merge(a: &mut Acc, b: Acc) {
     a.sink.merge(b.sink);
     a.evals += b.evals;
     a.exact += b.exact;
+    a.semi_exact += b.semi_exact;
     a.windowed += b.windowed;
     a.bounded_only += b.bounded_only;
     a.probe_evals += b.probe_evals;
@@ -94,6 +96,20 @@ fn check_time(c: &Timing, ts: &mina::TimeScale, t: f32, rank: u64, acc: &mut Acc
             acc.sink.add(&format!("exact:{}", kind(&got, &m)), rank, || (format!("t={t}: implementation {got:?}, reference {m:?} (exact arithmetic)"), cfg_json(c, t)));
         }
         return;
+    }
+    // t - delay exact but the cycle is not a power of two: the remainder is still exact (fmod),
+    // only the division and 1-x round (<= 2 ulp of 1 on the position); flags and phase must be
+    // exact except within 2 ulp of the (rounded) end threshold
+    if (td32 as f64) == td64 && matches!(c.rep, Rep::None | Rep::Infinite | Rep::Times(0..=1023)) {
+        let near_end = c.total().map(|tot| ((t as f64) - tot).abs() <= 2.0 * ulp32(tot as f32) as f64).unwrap_or(false);
+        if !near_end {
+            acc.semi_exact += 1;
+            let m = ref_phase(c, t);
+            if !agrees(&got, &m, 3.0 * 1.1920929e-7) {
+                acc.sink.add(&format!("exact-subtraction:{}", kind(&got, &m)), rank, || (format!("t={t}: implementation {got:?}, reference {m:?} (t - delay is exact, so only the division may round: position tolerance 3.6e-7)"), cfg_json(c, t)));
+            }
+            return;
+        }
     }
     // jitter window: the implementation rounds (t - delay) and the end threshold to f32
     let w = ulp32(t) as f64;
@@ -251,6 +267,14 @@ fn boundary_times(c: &Timing, radius: i32) -> Vec<f32> {
     for i in 0..=(20 * 16) {
         v.push(i as f32 / 16.0);
     }
+    // moderate and large times (phase must not drift): 2^k * (1 + j/7) up to ~1.5e7, on top of the delay
+    for k in 0..=23 {
+        for j in 0..7 {
+            let x = (1u32 << k) as f32 * (1.0 + j as f32 / 7.0);
+            v.push(x);
+            v.push(c.delay + x);
+        }
+    }
     v.extend([1.0e6, 1.0e30, f32::MAX, f32::MIN_POSITIVE, -1.0, -f32::MAX]);
     v
 }
@@ -328,12 +352,13 @@ pub fn run(run: Run) -> ! {
     let mut cov = Map::new();
     cov.insert("states".into(), json!(cfgs.len() as u64 + swept_cfgs));
     cov.insert("transitions".into(), json!(acc.evals + acc.probe_evals));
-    cov.insert("traces_validated_against_impl".into(), json!(acc.exact + acc.windowed));
+    cov.insert("traces_validated_against_impl".into(), json!(acc.exact + acc.semi_exact + acc.windowed));
     cov.insert("evaluations".into(), json!(acc.evals + acc.probe_evals));
-    cov.insert("distinct_nontrivial".into(), json!(acc.exact + acc.windowed));
-    cov.insert("rule".into(), json!("288 timing configurations (cycle in {1/4,1,3,0.3,1e-3,1e3} x delay in {0,1/2,0.1,7} x repeat in {None,Times 0,1,2,7,Infinite} x reverse) x {every f32 within +-1024 (thorough 4096) ulp of every phase boundary delay+j*cycle/2 and of the delay, a 1/16 grid up to 20, 1e6, 1e30, f32::MAX, MIN_POSITIVE, negative times}; thorough additionally sweeps EVERY finite f32 bit pattern (both signs) for 64 configurations. Oracle RefTimeScale: position in [0,1]; NotStarted iff t<delay (exact); when the arithmetic is exact (power-of-two cycle, exact t-delay) the phase, position and loop flags must equal the reference bit for bit; otherwise agreement with the reference at some t' within +-3 ulp(t) (position tolerance stated per case); when 3 ulp(t) >= cycle/4 only boundedness and far-from-end terminal consistency are asserted (counted as bounded_only). Metadata: delay/cycle/repeat exact, duration within 1.5 ulp of delay+cycle*(repeats+1), infinite iff Infinite; a linear 0->1 probe through Timeline::update must show exactly the position. non-trivial = evaluations compared with the reference (exact + windowed)"));
+    cov.insert("distinct_nontrivial".into(), json!(acc.exact + acc.semi_exact + acc.windowed));
+    cov.insert("rule".into(), json!("288 timing configurations (cycle in {1/4,1,3,0.3,1e-3,1e3} x delay in {0,1/2,0.1,7} x repeat in {None,Times 0,1,2,7,Infinite} x reverse) x {every f32 within +-1024 (thorough 4096) ulp of every phase boundary delay+j*cycle/2 and of the delay, a 1/16 grid up to 20, 2^k(1+j/7) up to 1.5e7 (also offset by the delay), 1e6, 1e30, f32::MAX, MIN_POSITIVE, negative times}; thorough additionally sweeps EVERY finite f32 bit pattern (both signs) for 64 configurations. Oracle RefTimeScale: position in [0,1]; NotStarted iff t<delay (exact); when the arithmetic is exact (power-of-two cycle, exact t-delay) the phase, position and loop flags must equal the reference bit for bit; when only t-delay is exact the phase and flags must be equal and the position within 3 ulp(1) (the remainder is exact, only the division rounds); otherwise agreement with the reference at some t' within +-3 ulp(t) (position tolerance stated per case); when 3 ulp(t) >= cycle/4 only boundedness and far-from-end terminal consistency are asserted (counted as bounded_only). Metadata: delay/cycle/repeat exact, duration within 1.5 ulp of delay+cycle*(repeats+1), infinite iff Infinite; a linear 0->1 probe through Timeline::update must show exactly the position. non-trivial = evaluations compared with the reference (exact + windowed)"));
     cov.insert("exhaustive".into(), json!(true));
     cov.insert("compared_exact".into(), json!(acc.exact));
+    cov.insert("compared_exact_phase_position_within_3ulp".into(), json!(acc.semi_exact));
     cov.insert("compared_with_jitter_window".into(), json!(acc.windowed));
     cov.insert("bounded_only".into(), json!(acc.bounded_only));
     cov.insert("phases_observed_notstarted_active_ended".into(), json!(acc.phases));
